@@ -263,8 +263,8 @@ func c20ArgSupported(t reflect.Type, depth int) bool {
 }
 
 type c20Recv struct {
-	name string       // pkg.Type
-	typ  reflect.Type // *T (the method set that is exercised)
+	name string                                  // pkg.Type
+	typ  reflect.Type                            // *T (the method set that is exercised)
 	mk   func(rng *rand.Rand, n int) interface{} // pointer to a fresh receiver
 }
 
